@@ -7,6 +7,7 @@ import (
 	"os"
 	"path/filepath"
 	"sort"
+	"strconv"
 )
 
 func bigMulAdd(a, m, c int64) string {
@@ -60,9 +61,27 @@ func newOut(dir string) *out {
 
 // addCase records one correspondence case: the model request, the response
 // the implementation's behaviour corresponds to, and a human-readable input.
-func (o *out) addCase(req, expected, desc string) {
-	fmt.Fprintf(o.cases, "%s\t%s\t%s\n", req, expected, oneLine(desc))
+func (o *out) addCase(req, expected, desc string) { o.addCaseVM(req, expected, desc, true) }
+
+// addCaseVM: vmSafe = the model consults no oracle on this case, so the
+// in-Coq path (default oracles) may re-evaluate it.
+func (o *out) addCaseVM(req, expected, desc string, vmSafe bool) {
+	flag := "V"
+	if !vmSafe {
+		flag = "-"
+	}
+	fmt.Fprintf(o.cases, "%s\t%s\t%s\t%s\n", req, expected, oneLine(desc), flag)
 	o.ncases++
+}
+
+// asciiNoFloat: no non-ASCII rune (unicode.ToLower oracle) and no '.' (strconv.ParseFloat oracle).
+func asciiNoFloat(s string) bool {
+	for i := 0; i < len(s); i++ {
+		if s[i] >= 128 || s[i] == '.' {
+			return false
+		}
+	}
+	return true
 }
 
 // nontrivial counts a distinct non-trivial input (by the property's own rule).
@@ -105,14 +124,10 @@ func (o *out) finish() {
 	must(os.WriteFile(filepath.Join(o.dir, "stats.json"), j, 0o644))
 }
 
+// oneLine renders arbitrary bytes as one line of printable ASCII.
 func oneLine(s string) string {
-	b := []byte(s)
-	for i, c := range b {
-		if c == '\n' || c == '\t' || c == '\r' {
-			b[i] = ' '
-		}
-	}
-	return string(b)
+	q := strconv.QuoteToASCII(s)
+	return q[1 : len(q)-1]
 }
 
 func must(err error) {
